@@ -51,14 +51,18 @@ SYN_CASE = {
     'fuel': {'sample': True},
 }
 SIM_CASE = {'traj': {'simulated': 0}, 'pm': {'sample': True}, 'fuel': {'sample': True}}
-TRAJS = ['sim', 'syn']
+# the same synthetic flight with no cruise points at all (climb straight into descent): in lto mode its whole
+# trajectory lies outside the counted window
+NOCRZ_CASE = {**SYN_CASE, 'traj': {**SYN_CASE['traj'], 'n_climb': 5, 'n_cruise': 0, 'n_descent': 4}}
+TRAJS = ['sim', 'syn', 'nocrz']
+CASES = {'sim': SIM_CASE, 'syn': SYN_CASE, 'nocrz': NOCRZ_CASE}
 
 _INPUTS: dict = {}
 
 
 def inputs(which: str):
     if which not in _INPUTS:
-        _INPUTS[which] = ec.build_inputs(SIM_CASE if which == 'sim' else SYN_CASE)
+        _INPUTS[which] = ec.build_inputs(CASES[which])
     return _INPUTS[which]
 
 
@@ -93,9 +97,9 @@ def check_one(ctx, cfg: dict, which: str, enumerated: bool, memo: dict | None):
 def run(ctx: core.Ctx):
     ctx.level = 'exploration'
     ctx.rule = (
-        'Cartesian product of the 12 documented emissions options (41 472 configurations) x 2 trajectories (simulated '
+        'Cartesian product of the 12 documented emissions options (41 472 configurations) x 3 trajectories (simulated '
         'sample mission with the sample performance model; synthetic 9-point trajectory with the tests\' stand-in model '
-        'and an APU). thorough: whole product sharded by configuration index (exhaustive); quick: greedy '
+        'and an APU; the same without any cruise point). thorough: whole product sharded by configuration index (exhaustive); quick: greedy '
         'pairwise-covering array (every pair of option values) on both trajectories + Hypothesis-drawn configurations. '
         'evaluations = (configuration, trajectory) pairs. Non-trivial = configuration differing from the default in >= 2 '
         'options; distinct = configuration index. Outcome must be a balanced inventory (C01 oracle) with switched-off '
